@@ -153,7 +153,7 @@ def diff(before: Dict[str, Entry], after: Dict[str, Entry], free_resources: Opti
     """First difference between two fingerprints.
 
     free_resources: an entry that (before the operation) lived in one of these resources (tensor storage,
-                    Grid/Cube object, hook container) may change its value, be replaced or disappear;
+                    Grid/Cube object, hook container) may change its value as long as it keeps living there;
     free_paths:     predicate on path -> entries that may differ or (dis)appear entirely.
     """
     for k in sorted(set(before) | set(after)):
@@ -161,6 +161,16 @@ def diff(before: Dict[str, Entry], after: Dict[str, Entry], free_resources: Opti
             continue
         b, a = before.get(k), after.get(k)
         if b is not None and free_resources and b[2] and (b[2] & free_resources):
+            # the entry lives in something it shares with the receiver (a tensor storage, a Grid/Cube object, a hook
+            # container): its value may follow an in-place change of that thing -- but the entry must still be there and
+            # still live in the shared thing; an attribute of the other object that now refers to *something else*
+            # (re-bound, removed) was changed on that object itself, which sharing does not explain
+            if a is None:
+                return {"path": k, "what": "disappeared"}
+            if not ((b[2] & free_resources) & (a[2] or set())):
+                # (a slot tensor of a shared Grid object may be replaced by an in-place setter of that Grid: the entry
+                # then still lives in the shared Grid object, which is enough)
+                return {"path": k, "what": "rebound"}
             continue
         if b is None or a is None:
             return {"path": k, "what": "appeared" if b is None else "disappeared"}
